@@ -159,7 +159,7 @@ pub fn check(case: &Case) -> Outcome {
     let files: Vec<(String, usize)> = if case.multi {
         // lengths include 0 and multiples of the piece length (4): a hostile entry may be an empty file that starts
         // exactly at the end of the last piece
-        case.paths.iter().enumerate().map(|(k, p)| (render(p, &canary), [3usize, 0, 4, 8, 5, 0][(k + (case.seed % 6) as usize) % 6])).collect()
+        case.paths.iter().enumerate().map(|(k, p)| (render(p, &canary), [0usize, 4, 0, 8, 3, 5, 0, 4][((case.seed >> (3 * k)) % 8) as usize])).collect()
     } else {
         vec![(name.clone(), 5)]
     };
